@@ -934,9 +934,9 @@ theorem mergeSort_congr {α} {r s : α → α → Bool} {l : List α} (h : ∀ a
   simpa using this
 
 /-- the composite-key argsort of `sort_by_time` is the stable merge sort by the lexicographic order -/
-theorem sortByTime_eq_mergeSort (h : Bool) (x : List CRow) :
-    sortByTime h x = x.mergeSort (lexLeB h) := by
-  unfold sortByTime
+theorem sortByTimeFast_eq_mergeSort (h : Bool) (x : List CRow) :
+    sortByTimeFast h x = x.mergeSort (lexLeB h) := by
+  unfold sortByTimeFast
   rw [sortKeys_eq]
   have hz : (x.map (keyOf h x)).zip x = x.map fun r => (keyOf h x r, r) := by
     generalize keyOf h x = f
@@ -1525,6 +1525,587 @@ theorem fromBreak_eq (x : List Row) (safe nb : Int) (left : Bool) (h : 2 ≤ x.l
       rfl
     · intro e he
       simp only [fromBreak, Bool.false_eq_true, ite_false, hspec, he]
+
+
+/-! ### `sort_by_time`: the guard and the slow path -/
+
+theorem insertBy_perm {α} (le : α → α → Bool) (a : α) (l : List α) : (insertBy le a l).Perm (a :: l) := by
+  induction l with
+  | nil => exact List.Perm.refl _
+  | cons b l ih =>
+    simp only [insertBy]
+    split
+    · exact List.Perm.refl _
+    · exact (List.Perm.cons b ih).trans (List.Perm.swap a b l)
+
+theorem isort_perm {α} (le : α → α → Bool) (l : List α) : (isort le l).Perm l := by
+  induction l with
+  | nil => exact List.Perm.refl _
+  | cons a l ih => exact (insertBy_perm le a _).trans (List.Perm.cons a ih)
+
+theorem insertBy_pairwise {α} (le : α → α → Bool) (htr : ∀ a b c, le a b = true → le b c = true → le a c = true)
+    (htot : ∀ a b, (le a b || le b a) = true) (a : α) (l : List α)
+    (h : l.Pairwise (fun x y => le x y = true)) : (insertBy le a l).Pairwise (fun x y => le x y = true) := by
+  induction l with
+  | nil => simp [insertBy]
+  | cons b l ih =>
+    have ⟨hb, hl⟩ := List.pairwise_cons.1 h
+    simp only [insertBy]
+    split
+    · rename_i hab
+      refine List.pairwise_cons.2 ⟨?_, h⟩
+      intro y hy
+      cases hy with
+      | head => exact hab
+      | tail _ hy' => exact htr _ _ _ hab (hb y hy')
+    · rename_i hab
+      have hba : le b a = true := by
+        have := htot a b
+        simp only [Bool.or_eq_true] at this
+        rcases this with h1 | h1
+        · exact absurd h1 hab
+        · exact h1
+      refine List.pairwise_cons.2 ⟨?_, ih hl⟩
+      intro y hy
+      have := (insertBy_perm le a l).mem_iff.1 hy
+      cases this with
+      | head => exact hba
+      | tail _ hy' => exact hb y hy'
+
+theorem isort_pairwise {α} (le : α → α → Bool) (htr : ∀ a b c, le a b = true → le b c = true → le a c = true)
+    (htot : ∀ a b, (le a b || le b a) = true) (l : List α) : (isort le l).Pairwise (fun x y => le x y = true) := by
+  induction l with
+  | nil => exact List.Pairwise.nil
+  | cons a l ih => exact insertBy_pairwise le htr htot a _ ih
+
+theorem lexAllLeB_trans (h : Bool) (a b c : CRow) :
+    lexAllLeB h a b = true → lexAllLeB h b c = true → lexAllLeB h a c = true := by
+  simp only [lexAllLeB, decide_eq_true_eq]
+  cases h <;> simp <;> omega
+
+theorem lexAllLeB_total (h : Bool) (a b : CRow) : (lexAllLeB h a b || lexAllLeB h b a) = true := by
+  simp only [lexAllLeB, Bool.or_eq_true, decide_eq_true_eq]
+  cases h <;> simp <;> omega
+
+/-- the all-fields order refines the (time, channel) order -/
+theorem lexAllLeB_imp (h : Bool) (a b : CRow) : lexAllLeB h a b = true → lexLeB h a b = true := by
+  simp only [lexAllLeB, lexLeB, decide_eq_true_eq]
+  cases h <;> simp <;> omega
+
+theorem sortByTime_fast {h : Bool} {x : List CRow} (hok : sortSpanTooLarge h x = false) :
+    sortByTime h x = x.mergeSort (lexLeB h) := by
+  simp [sortByTime, hok, sortByTimeFast_eq_mergeSort]
+
+theorem sortByTime_slow {h : Bool} {x : List CRow} (hbig : sortSpanTooLarge h x = true) :
+    sortByTime h x = isort (lexAllLeB h) x := by
+  simp [sortByTime, hbig, sortByTimeSlow]
+
+theorem sortByTime_perm_sorted (h : Bool) (x : List CRow) :
+    (sortByTime h x).Perm x ∧ (sortByTime h x).Pairwise (fun a b => lexLeB h a b = true) := by
+  cases hg : sortSpanTooLarge h x with
+  | false =>
+    rw [sortByTime_fast hg]
+    exact ⟨List.mergeSort_perm _ _, List.pairwise_mergeSort (lexLeB_trans h) (lexLeB_total h) x⟩
+  | true =>
+    rw [sortByTime_slow hg]
+    exact ⟨isort_perm _ _,
+      (isort_pairwise _ (lexAllLeB_trans h) (lexAllLeB_total h) x).imp (lexAllLeB_imp h _ _)⟩
+
+/-! ### `split_touching_windows` -/
+
+/-- direct definition: for every container the things that reach to within `window` of it, in order -/
+def splitTouchSpec (things containers : List Row) (window : Int) : List (List Row) :=
+  containers.map fun c => things.filter fun x => decide (c.time - window < x.endt) && decide (x.time < c.endt + window)
+
+/-- for a predicate that only switches from true to false along the list, filtering keeps a prefix -/
+theorem filter_eq_take_of_prefix {p : Row → Bool} : ∀ {l : List Row}, l.Pairwise (fun a b => p b = true → p a = true) →
+    l.filter p = l.take (l.countP p) := by
+  intro l
+  induction l with
+  | nil => intro _; rfl
+  | cons a l ih =>
+    intro hp
+    have ⟨ha, hl⟩ := List.pairwise_cons.1 hp
+    by_cases hpa : p a = true
+    · simp [hpa, ih hl]
+    · have hz : l.countP p = 0 := countP_eq_zero_of fun x hx => by
+        cases h : p x with
+        | false => rfl
+        | true => exact absurd (ha x hx h) hpa
+      have hf : l.filter p = [] := by
+        rw [List.filter_eq_nil_iff]; intro x hx hpx; exact hpa (ha x hx hpx)
+      simp [hpa, hz, hf]
+
+/-- for a predicate that only switches from false to true along the list, filtering keeps a suffix -/
+theorem filter_eq_drop_of_suffix {q : Row → Bool} : ∀ {l : List Row}, l.Pairwise (fun a b => q a = true → q b = true) →
+    l.filter q = l.drop (l.countP fun x => !q x) := by
+  intro l
+  induction l with
+  | nil => intro _; rfl
+  | cons a l ih =>
+    intro hp
+    have ⟨ha, hl⟩ := List.pairwise_cons.1 hp
+    by_cases hqa : q a = true
+    · have hall : ∀ x ∈ l, q x = true := fun x hx => ha x hx hqa
+      have hz : l.countP (fun x => !q x) = 0 := countP_eq_zero_of fun x hx => by simp [hall x hx]
+      have hf : l.filter q = l := List.filter_eq_self.2 hall
+      simp [hqa, hz, hf]
+    · simp [hqa, ih hl]
+
+theorem countP_take_of_prefix {p : Row → Bool} : ∀ {l : List Row}, l.Pairwise (fun a b => p b = true → p a = true) →
+    ∀ r, (l.take r).countP p = min (l.countP p) r := by
+  intro l
+  induction l with
+  | nil => intro _ r; simp
+  | cons a l ih =>
+    intro hp r
+    have ⟨ha, hl⟩ := List.pairwise_cons.1 hp
+    cases r with
+    | zero => simp
+    | succ r =>
+      by_cases hpa : p a = true
+      · simp only [List.take_succ_cons, List.countP_cons, hpa, ite_true, ih hl r]; omega
+      · have hz : l.countP p = 0 := countP_eq_zero_of fun x hx => by
+          cases h : p x with
+          | false => rfl
+          | true => exact absurd (ha x hx h) hpa
+        have hz' : (l.take r).countP p = 0 := countP_eq_zero_of fun x hx => by
+          cases h : p x with
+          | false => rfl
+          | true => exact absurd (ha x (List.mem_of_mem_take hx) h) hpa
+        simp [List.take_succ_cons, hpa, hz, hz']
+
+/-- the slice `things[l:r]` of a touching window is exactly the list of touching things -/
+theorem window_slice_eq_filter {things : List Row} (c : Row) (w : Int) (ht : sortedByTimeB things = true)
+    (he : sortedByEndB things = true) :
+    (things.take (things.countP fun x => decide (x.time < c.endt + w))).drop
+        (things.countP fun x => decide (x.endt ≤ c.time - w)) =
+      things.filter fun x => decide (c.time - w < x.endt) && decide (x.time < c.endt + w) := by
+  have hpt : things.Pairwise (fun a b => decide (b.time < c.endt + w) = true → decide (a.time < c.endt + w) = true) :=
+    (sortedByTimeB_pairwise ht).imp (by intro a b hab; simp; omega)
+  have hpe : things.Pairwise (fun a b => decide (b.endt ≤ c.time - w) = true → decide (a.endt ≤ c.time - w) = true) :=
+    (sortedByEndB_pairwise he).imp (by intro a b hab; simp; omega)
+  have hqe : things.Pairwise (fun a b => decide (c.time - w < a.endt) = true → decide (c.time - w < b.endt) = true) :=
+    (sortedByEndB_pairwise he).imp (by intro a b hab; simp; omega)
+  -- filter by both = filter (suffix predicate) of filter (prefix predicate)
+  have h1 : things.filter (fun x => decide (c.time - w < x.endt) && decide (x.time < c.endt + w)) =
+      (things.filter fun x => decide (x.time < c.endt + w)).filter fun x => decide (c.time - w < x.endt) := by
+    rw [List.filter_filter]
+  rw [h1, filter_eq_take_of_prefix hpt]
+  generalize things.countP (fun x => decide (x.time < c.endt + w)) = r
+  have hsub : (things.take r).Pairwise (fun a b => decide (c.time - w < a.endt) = true → decide (c.time - w < b.endt) = true) :=
+    hqe.sublist (List.take_sublist _ _)
+  rw [filter_eq_drop_of_suffix hsub]
+  have hneg : (fun x : Row => !decide (c.time - w < x.endt)) = fun x => decide (x.endt ≤ c.time - w) := by
+    funext x; by_cases h : c.time - w < x.endt <;> simp [h] <;> omega
+  rw [hneg, countP_take_of_prefix hpe r]
+  -- drop (min l r) (take r) = drop l (take r)
+  by_cases hlr : things.countP (fun x => decide (x.endt ≤ c.time - w)) ≤ r
+  · rw [Nat.min_eq_left hlr]
+  · have h2 : min (things.countP fun x => decide (x.endt ≤ c.time - w)) r = r := by omega
+    rw [h2]
+    have hlen : (things.take r).length ≤ r := by simp; omega
+    rw [List.drop_eq_nil_of_le hlen, List.drop_eq_nil_of_le (by omega)]
+
+theorem splitTouchingWindows_eq_spec {things containers : List Row} (w : Int)
+    (ht : sortedByTimeB things = true) (he : sortedByEndB things = true) (hc : sortedByTimeB containers = true)
+    (hnt : nonNegB things = true) (hnc : nonNegB containers = true) :
+    splitTouchingWindows things containers w = .ok (splitTouchSpec things containers w) := by
+  simp only [splitTouchingWindows, touchingWindows_eq_spec w ht he hc hnt hnc, splitByWindow, touchSpec, splitTouchSpec,
+    List.map_map]
+  congr 1
+  apply List.map_congr_left
+  intro c _
+  exact window_slice_eq_filter c w ht he
+
+
+/-! ### translation invariance: the kernels only look at differences of times -/
+
+/-- move a row by `d` -/
+def shiftRow (d : Int) (r : Row) : Row := { r with time := r.time + d, endt := r.endt + d }
+
+def shiftRows (d : Int) (l : List Row) : List Row := l.map (shiftRow d)
+
+@[simp] theorem shiftRow_time (d : Int) (r : Row) : (shiftRow d r).time = r.time + d := rfl
+@[simp] theorem shiftRow_endt (d : Int) (r : Row) : (shiftRow d r).endt = r.endt + d := rfl
+@[simp] theorem shiftRow_id (d : Int) (r : Row) : (shiftRow d r).id = r.id := rfl
+@[simp] theorem shiftRows_nil (d : Int) : shiftRows d [] = [] := rfl
+@[simp] theorem shiftRows_cons (d : Int) (r : Row) (l : List Row) :
+    shiftRows d (r :: l) = shiftRow d r :: shiftRows d l := rfl
+
+theorem sortedByTimeB_shift (d : Int) (l : List Row) : sortedByTimeB (shiftRows d l) = sortedByTimeB l := by
+  induction l with
+  | nil => rfl
+  | cons a l ih =>
+    cases l with
+    | nil => rfl
+    | cons b rest =>
+      simp only [shiftRows_cons, sortedByTimeB, shiftRow_time] at ih ⊢
+      rw [ih]; congr 1; simp
+
+theorem sortedByEndB_shift (d : Int) (l : List Row) : sortedByEndB (shiftRows d l) = sortedByEndB l := by
+  induction l with
+  | nil => rfl
+  | cons a l ih =>
+    cases l with
+    | nil => rfl
+    | cons b rest =>
+      simp only [shiftRows_cons, sortedByEndB, shiftRow_endt] at ih ⊢
+      rw [ih]; congr 1; simp
+
+theorem nonOverlapB_shift (d : Int) (l : List Row) : nonOverlapB (shiftRows d l) = nonOverlapB l := by
+  induction l with
+  | nil => rfl
+  | cons a l ih =>
+    cases l with
+    | nil => rfl
+    | cons b rest =>
+      simp only [shiftRows_cons, nonOverlapB, shiftRow_endt, shiftRow_time] at ih ⊢
+      rw [ih]; congr 1; simp
+
+theorem nonNegB_shift (d : Int) (l : List Row) : nonNegB (shiftRows d l) = nonNegB l := by
+  simp [nonNegB, shiftRows, List.all_map, Function.comp_def]
+
+theorem isEmpty_shift (d : Int) (l : List Row) : (shiftRows d l).isEmpty = l.isEmpty := by
+  cases l <;> rfl
+
+/-! #### fully_contained_in -/
+
+theorem skipContainers_shift (d t : Int) (bs : List Row) : ∀ bi,
+    skipContainers (t + d) (shiftRows d bs) bi =
+      (shiftRows d (skipContainers t bs bi).1, (skipContainers t bs bi).2) := by
+  induction bs with
+  | nil => intro bi; rfl
+  | cons b bs ih =>
+    intro bi
+    simp only [shiftRows_cons, skipContainers, shiftRow_endt]
+    by_cases h : b.endt ≤ t
+    · have : b.endt + d ≤ t + d := by omega
+      simp only [h, this, ite_true]; exact ih (bi + 1)
+    · have : ¬ b.endt + d ≤ t + d := by omega
+      simp only [h, this, ite_false, shiftRows_cons]
+
+theorem fcInLoop_shift (d : Int) (as : List Row) : ∀ (bs : List Row) (bi : Nat),
+    fcInLoop (shiftRows d as) (shiftRows d bs) bi = fcInLoop as bs bi := by
+  induction as with
+  | nil => intros; rfl
+  | cons a as ih =>
+    intro bs bi
+    simp only [shiftRows_cons, fcInLoop, shiftRow_time, skipContainers_shift]
+    cases hs : skipContainers a.time bs bi with
+    | mk bs' bi' =>
+      cases bs' with
+      | nil => simp [shiftRows]
+      | cons b bs'' =>
+        simp only [shiftRows_cons, shiftRow_time, shiftRow_endt]
+        have := ih (b :: bs'') bi'
+        simp only [shiftRows_cons] at this
+        rw [this]
+        congr 1
+        by_cases hc : b.time ≤ a.time ∧ a.endt ≤ b.endt
+        · have : b.time + d ≤ a.time + d ∧ a.endt + d ≤ b.endt + d := ⟨by omega, by omega⟩
+          simp [hc]
+        · have : ¬ (b.time + d ≤ a.time + d ∧ a.endt + d ≤ b.endt + d) := fun h => hc ⟨by omega, by omega⟩
+          simp [hc]
+
+theorem sanity_shift (d : Int) (t c : List Row) : sanity (shiftRows d t) (shiftRows d c) = sanity t c := by
+  simp only [sanity, sortedByTimeB_shift, nonNegB_shift]
+
+theorem fullyContainedIn_shift (d : Int) (things containers : List Row) :
+    fullyContainedIn (shiftRows d things) (shiftRows d containers) = fullyContainedIn things containers := by
+  simp only [fullyContainedIn, sanity_shift, fcInCore, fcInLoop_shift]
+
+/-! #### touching_windows -/
+
+theorem advanceLeft_shift (d bound : Int) (ts : List Row) : ∀ i,
+    advanceLeft (bound + d) (shiftRows d ts) i = (shiftRows d (advanceLeft bound ts i).1, (advanceLeft bound ts i).2) := by
+  induction ts with
+  | nil => intro i; rfl
+  | cons x xs ih =>
+    intro i
+    simp only [shiftRows_cons, advanceLeft, shiftRow_endt]
+    by_cases h : x.endt ≤ bound
+    · have : x.endt + d ≤ bound + d := by omega
+      simp only [h, this, ite_true]; exact ih (i + 1)
+    · have : ¬ x.endt + d ≤ bound + d := by omega
+      simp only [h, this, ite_false, shiftRows_cons]
+
+theorem advanceRight_shift (d bound : Int) (ts : List Row) : ∀ i,
+    advanceRight (bound + d) (shiftRows d ts) i = (shiftRows d (advanceRight bound ts i).1, (advanceRight bound ts i).2) := by
+  induction ts with
+  | nil => intro i; rfl
+  | cons x xs ih =>
+    intro i
+    simp only [shiftRows_cons, advanceRight, shiftRow_time]
+    by_cases h : x.time < bound
+    · have : x.time + d < bound + d := by omega
+      simp only [h, this, ite_true]; exact ih (i + 1)
+    · have : ¬ x.time + d < bound + d := by omega
+      simp only [h, this, ite_false, shiftRows_cons]
+
+theorem leftPass_shift (d w : Int) (cs : List Row) : ∀ (ts : List Row) (i : Nat),
+    leftPass w (shiftRows d cs) (shiftRows d ts) i = leftPass w cs ts i := by
+  induction cs with
+  | nil => intros; rfl
+  | cons c cs ih =>
+    intro ts i
+    have e : c.time + d - w = (c.time - w) + d := by omega
+    simp only [shiftRows_cons, leftPass, shiftRow_time, e, advanceLeft_shift, ih]
+
+theorem rightPass_shift (d w : Int) (cs : List (Row × Nat)) : ∀ (ts : List Row) (i : Nat),
+    rightPass w (cs.map fun p => (shiftRow d p.1, p.2)) (shiftRows d ts) i = rightPass w cs ts i := by
+  induction cs with
+  | nil => intros; rfl
+  | cons c cs ih =>
+    obtain ⟨c, ci⟩ := c
+    intro ts i
+    have e : c.endt + d + w = (c.endt + w) + d := by omega
+    simp only [List.map_cons, rightPass, shiftRow_endt, e, advanceRight_shift, ih]
+
+theorem argsortByEnd_shift (d : Int) (cs : List Row) :
+    argsortByEnd (shiftRows d cs) = (argsortByEnd cs).map fun p => (shiftRow d p.1, p.2) := by
+  unfold argsortByEnd shiftRows
+  have hz : (cs.map (shiftRow d)).zipIdx = cs.zipIdx.map (Prod.map (shiftRow d) id) := List.map_zipIdx.symm
+  rw [hz]
+  have := List.map_mergeSort (f := Prod.map (shiftRow d) id)
+    (r := fun (p q : Row × Nat) => decide (p.1.endt ≤ q.1.endt))
+    (s := fun (p q : Row × Nat) => decide (p.1.endt ≤ q.1.endt)) (l := cs.zipIdx)
+    (by intro a _ b _; simp [Prod.map])
+  rw [← this]
+  rfl
+
+theorem touchingWindowsCore_shift (d w : Int) (things containers : List Row) :
+    touchingWindowsCore (shiftRows d things) (shiftRows d containers) w = touchingWindowsCore things containers w := by
+  simp only [touchingWindowsCore, leftPass_shift, argsortByEnd_shift, rightPass_shift]
+
+theorem touchingWindows_shift (d w : Int) (things containers : List Row) :
+    touchingWindows (shiftRows d things) (shiftRows d containers) w = touchingWindows things containers w := by
+  have hm : (shiftRows d containers).map (fun _ => ((0, 0) : Nat × Nat)) = containers.map fun _ => (0, 0) := by
+    simp [shiftRows]
+  simp only [touchingWindows, sortedByTimeB_shift, nonNegB_shift, isEmpty_shift, touchingWindowsCore_shift, hm]
+
+/-! #### diff, _find_break_i -/
+
+theorem diffAux_shift (d : Int) (l : List Row) : ∀ m, diffAux (m + d) (shiftRows d l) = diffAux m l := by
+  induction l with
+  | nil => intro m; rfl
+  | cons a l ih =>
+    intro m
+    cases l with
+    | nil => rfl
+    | cons b rest =>
+      have e : max (m + d) (a.endt + d) = max m a.endt + d := by omega
+      have := ih (max m a.endt)
+      simp only [shiftRows_cons] at this
+      simp only [shiftRows_cons, diffAux, shiftRow_endt, shiftRow_time, e, this]
+      congr 1; omega
+
+theorem diffGaps_shift (d : Int) (rows : List Row) : diffGaps (shiftRows d rows) = diffGaps rows := by
+  cases rows with
+  | nil => rfl
+  | cons r rest =>
+    have := diffAux_shift d (r :: rest) r.endt
+    simpa [diffGaps] using this
+
+theorem findBreakLoop_shift (d safe : Int) (ds : List Row) : ∀ (latest : Int) (i : Nat),
+    findBreakLoop safe (shiftRows d ds) (latest + d) i = findBreakLoop safe ds latest i := by
+  induction ds with
+  | nil => intros; rfl
+  | cons x xs ih =>
+    intro latest i
+    have e : max (latest + d) (x.endt + d) = max latest x.endt + d := by omega
+    simp only [shiftRows_cons, findBreakLoop, shiftRow_time, shiftRow_endt, e, ih]
+    by_cases h : x.time ≥ latest + safe
+    · have : x.time + d ≥ latest + d + safe := by omega
+      simp [h, this]
+    · have : ¬ x.time + d ≥ latest + d + safe := by omega
+      simp [h, this]
+
+theorem findBreakI_shift (d safe nb : Int) (data : List Row) :
+    findBreakI (shiftRows d data) safe (nb + d) = findBreakI data safe nb := by
+  match data with
+  | [] => rfl
+  | [_] => rfl
+  | d0 :: d1 :: rest =>
+    have e : max (nb + d) (d0.endt + d) = max nb d0.endt + d := by omega
+    have := findBreakLoop_shift d safe (d1 :: rest) (max nb d0.endt) 1
+    simp only [shiftRows_cons] at this
+    simp only [shiftRows_cons, findBreakI, shiftRow_endt, e, this]
+
+/-! #### abs_time_to_prev_next_interval, overlap_indices -/
+
+theorem prevLoop_shift (d t : Int) (ivs : List Row) : ∀ (prev : Int) (seen : Nat),
+    prevLoop (t + d) (shiftRows d ivs) prev seen = prevLoop t ivs prev seen := by
+  induction ivs with
+  | nil => intros; rfl
+  | cons iv ivs ih =>
+    intro prev seen
+    have e : t + d - (iv.endt + d) = t - iv.endt := by omega
+    simp only [shiftRows_cons, prevLoop, shiftRow_time, shiftRow_endt, e, ih]
+    by_cases h : iv.time ≥ t
+    · have : iv.time + d ≥ t + d := by omega
+      simp [h, this]
+    · have : ¬ iv.time + d ≥ t + d := by omega
+      simp [h, this]
+
+theorem nextLoop_shift (d e : Int) (ivs : List Row) : nextLoop (e + d) (shiftRows d ivs) = nextLoop e ivs := by
+  induction ivs with
+  | nil => rfl
+  | cons iv ivs ih =>
+    simp only [shiftRows_cons, nextLoop, shiftRow_time, ih]
+    by_cases h : iv.time < e
+    · have : iv.time + d < e + d := by omega
+      simp [h, this]
+    · have : ¬ iv.time + d < e + d := by omega
+      simp [h, this]; omega
+
+theorem prevNextLoop_shift (d : Int) (ivs : List Row) (ths : List Row) : ∀ seen,
+    prevNextLoop (shiftRows d ivs) (shiftRows d ths) seen = prevNextLoop ivs ths seen := by
+  induction ths with
+  | nil => intro _; rfl
+  | cons th ths ih =>
+    intro seen
+    have hd : ∀ k, (shiftRows d ivs).drop k = shiftRows d (ivs.drop k) := by
+      intro k; simp [shiftRows, List.map_drop]
+    simp only [shiftRows_cons, prevNextLoop, shiftRow_time, shiftRow_endt, hd, prevLoop_shift, nextLoop_shift, ih]
+
+theorem absTimeToPrevNext_shift (d : Int) (things intervals : List Row) :
+    absTimeToPrevNext (shiftRows d things) (shiftRows d intervals) = absTimeToPrevNext things intervals := by
+  have hm : (shiftRows d things).map (fun _ => ((-1, -1) : Int × Int)) = things.map fun _ => (-1, -1) := by
+    simp [shiftRows]
+  simp only [absTimeToPrevNext, sortedByTimeB_shift, isEmpty_shift, prevNextLoop_shift, hm]
+
+theorem overlapIndices_shift (d a1 nA b1 nB : Int) :
+    overlapIndices (a1 + d) nA (b1 + d) nB = overlapIndices a1 nA b1 nB := by
+  have e : a1 + d - (b1 + d) = a1 - b1 := by omega
+  simp only [overlapIndices, e]
+
+
+/-! #### sort_by_time -/
+
+def shiftC (d : Int) (r : CRow) : CRow := { r with time := r.time + d }
+
+theorem minList_shift (d : Int) (l : List Int) : ∀ m, minList (m + d) (l.map (· + d)) = minList m l + d := by
+  induction l with
+  | nil => intro m; rfl
+  | cons a l ih =>
+    intro m
+    have e : min (m + d) (a + d) = min m a + d := by omega
+    simp only [minList, List.map_cons, List.foldl_cons, e] at ih ⊢
+    exact ih (min m a)
+
+theorem maxList_shift (d : Int) (l : List Int) : ∀ m, maxList (m + d) (l.map (· + d)) = maxList m l + d := by
+  induction l with
+  | nil => intro m; rfl
+  | cons a l ih =>
+    intro m
+    have e : max (m + d) (a + d) = max m a + d := by omega
+    simp only [maxList, List.map_cons, List.foldl_cons, e] at ih ⊢
+    exact ih (max m a)
+
+theorem sortChannels_shift (d : Int) (h : Bool) (x : List CRow) :
+    sortChannels h (x.map (shiftC d)) = sortChannels h x := by
+  simp [sortChannels, shiftC, Function.comp_def]
+
+theorem times_shift (d : Int) (rs : List CRow) :
+    (rs.map (shiftC d)).map (·.time) = (rs.map (·.time)).map (· + d) := by
+  simp [shiftC, Function.comp_def]
+
+theorem sortKeys_shift (d : Int) (h : Bool) (x : List CRow) : sortKeys h (x.map (shiftC d)) = sortKeys h x := by
+  cases x with
+  | nil => rfl
+  | cons r rs =>
+    unfold sortKeys
+    rw [sortChannels_shift]
+    cases hc : sortChannels h (r :: rs) with
+    | nil => rfl
+    | cons c cs =>
+      simp only [List.map_cons, times_shift]
+      have : (shiftC d r).time = r.time + d := rfl
+      rw [this, minList_shift]
+      have hz : ∀ (l : List CRow) (cl : List Int), ((l.map (shiftC d)).zip cl).map
+            (fun p => (p.1.time - (minList r.time (rs.map (·.time)) + d)) * (maxList c cs + 1) + p.2) =
+          (l.zip cl).map (fun p => (p.1.time - minList r.time (rs.map (·.time))) * (maxList c cs + 1) + p.2) := by
+        intro l
+        induction l with
+        | nil => intro cl; rfl
+        | cons a l ih =>
+          intro cl
+          cases cl with
+          | nil => rfl
+          | cons k cl =>
+            simp only [List.map_cons, List.zip_cons_cons, ih cl]
+            congr 2
+            have : (shiftC d a).time = a.time + d := rfl
+            rw [this]
+            congr 1; omega
+      have := hz (r :: rs) (c :: cs)
+      simpa using this
+
+theorem sortSpanTooLarge_shift (d : Int) (h : Bool) (x : List CRow) :
+    sortSpanTooLarge h (x.map (shiftC d)) = sortSpanTooLarge h x := by
+  cases x with
+  | nil => rfl
+  | cons r rs =>
+    unfold sortSpanTooLarge
+    rw [sortChannels_shift]
+    cases hc : sortChannels h (r :: rs) with
+    | nil => rfl
+    | cons c cs =>
+      simp only [List.map_cons, times_shift]
+      have : (shiftC d r).time = r.time + d := rfl
+      rw [this, minList_shift, maxList_shift]
+      have e : maxList r.time (rs.map (·.time)) + d - (minList r.time (rs.map (·.time)) + d) =
+          maxList r.time (rs.map (·.time)) - minList r.time (rs.map (·.time)) := by omega
+      rw [e]
+
+theorem sortByTimeFast_shift (d : Int) (h : Bool) (x : List CRow) :
+    sortByTimeFast h (x.map (shiftC d)) = (sortByTimeFast h x).map (shiftC d) := by
+  unfold sortByTimeFast
+  rw [sortKeys_shift]
+  have hz : (sortKeys h x).zip (x.map (shiftC d)) = ((sortKeys h x).zip x).map (Prod.map id (shiftC d)) := by
+    rw [List.zip_map_right]
+  rw [hz]
+  have := List.map_mergeSort (f := Prod.map id (shiftC d))
+    (r := fun (p q : Int × CRow) => decide (p.1 ≤ q.1))
+    (s := fun (p q : Int × CRow) => decide (p.1 ≤ q.1)) (l := (sortKeys h x).zip x)
+    (by intro a _ b _; simp [Prod.map])
+  rw [← this, List.map_map, List.map_map]
+  rfl
+
+theorem insertBy_map {α β} (f : α → β) (le : α → α → Bool) (le' : β → β → Bool)
+    (hc : ∀ a b, le' (f a) (f b) = le a b) (a : α) (l : List α) :
+    insertBy le' (f a) (l.map f) = (insertBy le a l).map f := by
+  induction l with
+  | nil => rfl
+  | cons b l ih =>
+    simp only [List.map_cons, insertBy, hc]
+    split <;> simp [ih]
+
+theorem isort_map {α β} (f : α → β) (le : α → α → Bool) (le' : β → β → Bool)
+    (hc : ∀ a b, le' (f a) (f b) = le a b) (l : List α) : isort le' (l.map f) = (isort le l).map f := by
+  induction l with
+  | nil => rfl
+  | cons a l ih =>
+    simp only [isort, List.map_cons, List.foldr_cons] at ih ⊢
+    rw [ih, insertBy_map f le le' hc]
+
+theorem sortByTime_shift (d : Int) (h : Bool) (x : List CRow) :
+    sortByTime h (x.map (shiftC d)) = (sortByTime h x).map (shiftC d) := by
+  unfold sortByTime
+  rw [sortSpanTooLarge_shift]
+  split
+  · unfold sortByTimeSlow
+    apply isort_map
+    intro a b
+    unfold lexAllLeB
+    rw [decide_eq_decide]
+    have ht : ∀ r : CRow, (shiftC d r).time = r.time + d := fun _ => rfl
+    have hch : ∀ r : CRow, (shiftC d r).channel = r.channel := fun _ => rfl
+    have hid : ∀ r : CRow, (shiftC d r).id = r.id := fun _ => rfl
+    simp only [ht, hch, hid]
+    cases h <;> simp <;> omega
+  · exact sortByTimeFast_shift d h x
 
 
 end Strax.IntervalAlgos
